@@ -87,14 +87,6 @@ theorem C02_inv_build (F : BodyFn) (P : Project) (cfg : Cfg) (w : World) (picks 
   · rw [hw]
     exact coherent_buildLoop F P g cfg hwf hbt (graphOK_of_createDag hwf hdag) picks so so' _ s hloop hc
 
-/-- Worlds reachable by a history of edits and builds (static project `P`). -/
-inductive History (F : BodyFn) (P : Project) : World → Prop
-  | init (fs : FS) : History F P ⟨fs, []⟩
-  | edit {w : World} (fs' : FS) : History F P w → History F P { w with fs := fs' }
-  | dbLost {w : World} : History F P w → History F P { w with db := [] }
-  | build {w : World} (cfg : Cfg) (picks : List Nat) (r : Result) :
-      History F P w → Engine.build F P cfg w picks = .ok r → History F P r.w
-
 theorem C02_history_coherent {F : BodyFn} {P : Project} (hwf : WF P) (hbt : BodiesTotal P) {w : World}
     (h : History F P w) : DbCoherent F P w.db := by
   induction h with
